@@ -199,3 +199,106 @@ Example C05_ex_nontrivial :
   | _ => False
   end.
 Proof. vm_compute. repeat split; reflexivity. Qed.
+
+(* ---- class C05-K2 is empty on the operator fragment (unbounded) ---- *)
+From GV Require Spec.RefTable Spec.Pratt.
+From GV Require Import Proofs.C06.OperatorBalanced Proofs.C05.OperatorNoK2.
+
+(* 1. On reference trees.  For EVERY token list on which the reference precedence-climbing
+   parser of C02 (Spec/Pratt.v over the pinned table Spec/RefTable.v) is defined -- every
+   operator expression of any length and bracket depth: values, prefix / suffix / binary
+   operators of every rank, conditionals and else-chains, && / ||, apply forms, comma and
+   space lists, ( ) and { } brackets, the `;` separator, whitespace -- the reference tree
+   keeps the climbing invariant [leftok]: whenever the left operand of a binary node is
+   itself a binary node, its rank is <= the node's rank (an operator taken later binds no
+   tighter than the root of what it extends; a bracketed operand is an RGroup node). *)
+Theorem C05_reference_left_rank_monotone : forall toks rt,
+  Pratt.pratt toks = Some rt -> leftok rt = true.
+Proof. exact pratt_left_rank_monotone. Qed.
+Print Assumptions C05_reference_left_rank_monotone.
+
+(* ... hence, ?> !> (rank 700) and |> (800) being looser than && (410) and || (430), no
+   And / Or node of a reference tree has a conditional, or an else-chain with a conditional
+   arm, as its DIRECT left child ([r_drops_arms] is Known.drops_arms read on reference
+   trees: `a ?> b && c` is `a ?> (b && c)`, and in `(a ?> b) && c` a Group node sits between) *)
+Theorem C05_reference_no_K2 : forall toks rt,
+  Pratt.pratt toks = Some rt -> r_drops_arms rt = false.
+Proof. exact pratt_no_K2_reference. Qed.
+Print Assumptions C05_reference_no_K2.
+
+(* 2. On the parser's tree: whatever the parser model links for such a token list is not in
+   class C05-K2 (C02_full / Proofs/Builder/PrattBridge.v: the parser's tree is the image of
+   the reference tree) *)
+Theorem C05_operator_expressions_not_K2 : forall toks rt root nodes t,
+  Pratt.pratt toks = Some rt -> parse toks = Ok (root, nodes) -> tree_of nodes root = Some t ->
+  ~ Known_C05_K2 t.
+Proof. exact pratt_parse_no_K2. Qed.
+Print Assumptions C05_operator_expressions_not_K2.
+
+(* 3. C05_full_parsed WITHOUT the exclusion on the operator fragment: the token list is
+   accepted, its node array is a proper tree outside C05-K2, and every successful build --
+   any initial state of the data object, literal oracle and fuel -- is well-formed *)
+Theorem C05_full_operator_expressions : forall toks rt, Pratt.pratt toks = Some rt ->
+  exists root nodes t,
+    parse toks = Ok (root, nodes) /\ nodes <> [] /\ tree_of nodes root = Some t /\ ~ Known_C05_K2 t /\
+    forall init lit fuel r, build nodes init lit fuel root = Ok r -> wf_code nodes init (code_of_build r).
+Proof. exact C05_full_operator_expressions_proof. Qed.
+Print Assumptions C05_full_operator_expressions.
+
+(* non-vacuity: on `a ?> b + 1 |> c !> d * 2 |> (e ?> f) && g || h` (23 tokens: a two-arm
+   else-chain whose last arm is `(e ?> f) && g || h`, i.e. a bracketed conditional as left
+   operand of && -- the nearest the source text gets to C05-K2) the reference parser is
+   defined, its tree has an And node whose left child is a Group, [r_drops_arms] and
+   [drops_arms] are false, and the build is well-formed with 10 jump entries *)
+Example C05_ex_operator_expression :
+  let toks := [TT_Identifier; TT_JumpIfTrue; TT_Identifier; TT_PlusSign; TT_Number; TT_ElseJump;
+               TT_Identifier; TT_JumpIfFalse; TT_Identifier; TT_MultiplicationSign; TT_Number; TT_ElseJump;
+               TT_StartGroup; TT_Identifier; TT_JumpIfTrue; TT_Identifier; TT_EndGroup; TT_Whitespace; TT_And;
+               TT_Whitespace; TT_Identifier; TT_Or; TT_Identifier] in
+  match Pratt.pratt toks with
+  | Some rt =>
+    r_drops_arms rt = false /\ leftok rt = true /\
+    match parse toks with
+    | Ok (root, nodes) =>
+      match tree_of nodes root, build nodes empty_init lit_all (build_fuel nodes) root with
+      | Some t, Ok r =>
+        drops_arms t = false /\ wf_code_b nodes empty_init (code_of_build r) = true /\
+        length (jumps (fst r)) = 10
+      | _, _ => False
+      end
+    | _ => False
+    end
+  | None => False
+  end.
+Proof. vm_compute. repeat split; reflexivity. Qed.
+
+(* ... and the precedence reading: `a ?> b && c` is `a ?> (b && c)`, `a && b ?> c` is
+   `(a && b) ?> c`; only explicit brackets put a conditional to the left of && *)
+Example C05_ex_conditional_binds_looser :
+  Pratt.pratt [TT_Identifier; TT_JumpIfTrue; TT_Identifier; TT_And; TT_Identifier] =
+    Some (Pratt.RBin D_JumpIfTrue (Some 1) (Pratt.RAtom D_Identifier 0)
+            (Pratt.RBin D_And (Some 3) (Pratt.RAtom D_Identifier 2) (Pratt.RAtom D_Identifier 4))) /\
+  Pratt.pratt [TT_Identifier; TT_And; TT_Identifier; TT_JumpIfTrue; TT_Identifier] =
+    Some (Pratt.RBin D_JumpIfTrue (Some 3)
+            (Pratt.RBin D_And (Some 1) (Pratt.RAtom D_Identifier 0) (Pratt.RAtom D_Identifier 2))
+            (Pratt.RAtom D_Identifier 4)) /\
+  r_drops_arms (Pratt.RBin D_And (Some 3)
+                  (Pratt.RBin D_JumpIfTrue (Some 1) (Pratt.RAtom D_Identifier 0) (Pratt.RAtom D_Identifier 2))
+                  (Pratt.RAtom D_Identifier 4)) = true.
+Proof. vm_compute. repeat split; reflexivity. Qed.
+
+(* WHAT REMAINS for the statement without exclusion on every accepted token list: the parser
+   invariant below, for token lists outside the operator fragment (side-effect brackets,
+   annotations, blank-line separators, empty brackets).  It holds on the fragment
+   (C05_operator_expressions_not_K2) and on every short token list (C05_triples_bounded_3,
+   C05_reduced_bounded_5, C05_small_bounded_7: the K2 alternative never occurs there). *)
+Definition C05_parser_links_no_K2_statement : Prop :=
+  forall toks root nodes t, parse toks = Ok (root, nodes) -> tree_of nodes root = Some t -> ~ Known_C05_K2 t.
+
+(* ... and it is exactly the gap: it turns C05_full_parsed into well-formedness of every
+   successful build of every accepted token list *)
+Theorem C05_no_K2_gives_wf_all_parsed : C05_parser_links_no_K2_statement ->
+  forall toks root nodes init lit fuel r, parse toks = Ok (root, nodes) -> nodes <> [] ->
+    build nodes init lit fuel root = Ok r -> wf_code nodes init (code_of_build r).
+Proof. exact no_K2_gives_wf_all_parsed. Qed.
+Print Assumptions C05_no_K2_gives_wf_all_parsed.
